@@ -73,3 +73,78 @@ pub open spec fn create_request_ok(st: StoreV, sender: Addr, funds: Seq<Coin>, m
         _ => false,
     }
 }
+
+// ---- C03: an executor's request that meets the eligibility conditions, with the configured fees payable, is carried out
+pub open spec fn match_live(st: StoreV, sender: Addr, funds: Seq<Coin>, ask_id: Seq<char>, bid_id: Seq<char>, price: Seq<char>, size: int) -> bool {
+    let q = match_q(st, ask_id, bid_id, price, size);
+    &&& wf(st) && match_only_if(st, sender, funds, ask_id, bid_id, price, size)
+    &&& (info_of(st).ask_fee_info is Some ==> fits(pmul(pq(info_of(st).ask_fee_info->0.rate@), q.g)))      // A-RANGE
+    &&& fits(pq(price))
+}
+/// everything the no-abort proof of execute_match needs, derived once from the premise
+pub proof fn lemma_match_live_facts(st: StoreV, sender: Addr, funds: Seq<Coin>, ask_id: Seq<char>, bid_id: Seq<char>, price: Seq<char>, size: int)
+    requires match_live(st, sender, funds, ask_id, bid_id, price, size)
+    ensures ({ let q = match_q(st, ask_id, bid_id, price, size); let b = the_bid(st, bid_id); let a = the_ask(st, ask_id);
+        &&& size < LIMIT96() && 0 <= q.g <= q.og <= rem_quote(b) && q.bidfee <= q.origfee
+        &&& fits(pmul(q.ep, size)) && fits(pmul(q.bp, size)) && fits(dsub(pmul(q.bp, size), pmul(q.ep, size)))
+        &&& 0 <= pmul(q.ep, size) <= pmul(q.bp, size) && dsub(pmul(q.bp, size), pmul(q.ep, size)) >= 0
+        &&& fee_step_live(b, q.g) && fee_step_live(b, q.og)
+        &&& b.accumulated_base.v + size <= b.base.amount.v
+        &&& b.accumulated_quote.v + q.og <= b.quote.amount.v
+        &&& (b.fee is Some ==> b.accumulated_fee.v + q.origfee <= b.fee->0.amount.v && q.origfee >= 0)
+        &&& bid_wf(b, str_bytes(bid_id), info_of(st)) && ask_wf(a, str_bytes(ask_id), info_of(st))
+    })
+{
+    broadcast use dec_lemmas, axiom_ddiv;
+    let q = match_q(st, ask_id, bid_id, price, size); let b = the_bid(st, bid_id); let a = the_ask(st, ask_id);
+    let kb = str_bytes(bid_id); let ka = str_bytes(ask_id);
+    assert(st.bids.dom().contains(kb) && st.bids[kb] is V3);
+    assert(bid_wf(b, kb, info_of(st)));
+    assert(st.asks.dom().contains(ka));
+    assert(ask_wf(a, ka, info_of(st)));
+    lemma_match_fee_share(st, sender, funds, ask_id, bid_id, price, size);
+    lemma_pmul_sign(q.ep, size);
+    // ranges: 0 <= ep*s <= bp*s <= bp*rem_base = rem_quote < 2^96
+    lemma_pmul_price_mono(q.ep, q.bp, size);
+    lemma_pmul_mono(q.bp, size, rem_base(b));
+    lemma_pmul_sign(q.bp, size);
+    axiom_fits_bounded(pmul(q.ep, size), rem_quote(b));
+    axiom_fits_bounded(pmul(q.bp, size), rem_quote(b));
+    reveal(dsub);
+    axiom_fits_bounded(dsub(pmul(q.bp, size), pmul(q.ep, size)), rem_quote(b));
+    // fee steps
+    if b.fee is Some {
+        let f = b.fee->0.amount.v as int; let qa = b.quote.amount.v as int;
+        lemma_prorata_mono(f, rem_quote(b) - q.g, rem_quote(b), qa);
+        lemma_prorata_mono(f, rem_quote(b) - q.og, rem_quote(b), qa);
+        lemma_prorata_nonneg(f, rem_quote(b) - q.og, qa);
+        lemma_prorata_nonneg(f, rem_quote(b) - q.g, qa);
+        lemma_fee_step_fits(f, rem_quote(b) - q.g, qa);
+        lemma_fee_step_fits(f, rem_quote(b) - q.og, qa);
+    }
+}
+pub proof fn lemma_fee_step_fits(f: int, n: int, q: int)
+    requires 0 <= n <= q, 1 <= q < LIMIT96(), 0 <= f < LIMIT96()
+    ensures fits(ddiv(of_int(n), of_int(q))), fits(dmul(ddiv(of_int(n), of_int(q)), of_int(f)))
+{
+    broadcast use dec_lemmas, axiom_ddiv;
+    lemma_of_int_inj(n, q); lemma_of_int_inj(0, n);
+    assert(of_int(q) > 0);
+    let r = ddiv(of_int(n), of_int(q));
+    assert(0 <= r <= D());
+    assert(D() == of_int(1)) by { reveal(of_int); }
+    axiom_fits_bounded(r, 1);
+    assert(dmul(r, of_int(f)) == pmul(r, f));
+    lemma_pmul_sign(r, f);
+    lemma_pmul_price_mono(r, D(), f);
+    assert(pmul(D(), f) == of_int(f)) by { reveal(pmul); reveal(of_int); assert(D() * f == f * D()) by(nonlinear_arith); }
+    axiom_fits_bounded(pmul(r, f), f);
+}
+
+pub open spec fn match_request_ok(st: StoreV, sender: Addr, funds: Seq<Coin>, msg: ExecuteMsg) -> bool {
+    match msg {
+        ExecuteMsg::ExecuteMatch { ask_id, bid_id, price, size } =>
+            exec_msg_valid(msg) && match_live(st, sender, funds, ask_id@, bid_id@, price@, size.v as int),
+        _ => false,
+    }
+}
